@@ -253,6 +253,15 @@ Definition op_table : list (string * rd string) :=
             | TOk r => unwords [sh_tp r; ";"; sh_tres (tp_add_trunc md t r)]
             | x => sh_tres x end));
     ("s_truncexpect", md <- rMode ;; t <- rTrunc ;; p <- rTp ;; ret (trunc_expect md t p));
+    (* the civil date-time of a point in its own offset, and its unix time: Spec level *)
+    ("s_civil", md <- rMode ;; p <- rTp ;;
+       ret (let '(n, x) := local_ds md p (tzone p) in
+            let '(y, m, d) := cal_of_dn md n in
+            let '(_, doy) := ord_of_dn md n in
+            let sec := Qfloor x in
+            let unix := Qfloor (instant md p - instant md (mkTp (Cal 1970 1 1) (HMS 0 0 0) (mkZone 0 0))) in
+            unwords [show_Z y; show_Z m; show_Z d; show_Z doy; show_Z (sec / 3600); show_Z ((sec / 60) mod 60);
+                     show_Z (sec mod 60); show_Z unix]));
     ("s_localds", md <- rMode ;; p <- rTp ;; z <- rZone ;;
        ret (let '(n, x) := local_ds md p z in unwords [show_Z n; show_Q x]));
     (* durations *)
@@ -315,4 +324,4 @@ Definition run_ops (table : list (string * rd string)) (line : string) : string 
     end
   end.
 
-Definition run_line (line : string) : string := run_ops op_table line.
+(* the full table and run_line live in Model/DriverAll.v *)
